@@ -4,7 +4,7 @@ from .. import ringgen
 F5_WITNESS = "ring N=4 origin=0 ; pub:42 ; cons ; cons ; S 1 1 0 0 0 0 2 2 2 1 1"
 
 class C02(Prop):
-    pid = "C02"; prop_file = ["C02.v", "C01Z.v"]
+    pid = "C02"; prop_file = ["C02.v", "C01Z.v", "C13Z.v"]
     rule = ("cases: as C01 plus contention profiles (several producers against a full ring, several consumers against an empty one); "
             "non-trivial = a context switch inside a reserve->publish or reserve->release window AND at least one full or empty answer")
     trusted_base = ["channel level: a rejection is judged by a sound upper bound of the occupancy at every trace position (every other send / reservation counts from its first access, a slot is free again once the yield - zero-copy kinds: the drop of the handle - is recorded); the crossbeam and zero-copy Uni kinds run without a model (oracle only)",
